@@ -1,7 +1,7 @@
 (** Extraction of the control engine (models + boolean spec checkers) to OCaml.
     Directives: ExtrOcamlBasic only. *)
 From Coq Require Import ExtrOcamlBasic.
-From Qv Require Import Common.Bytes Model.FindDomain Model.MatchNet Model.LoadFile Spec.ControlSpec.
+From Qv Require Import Common.Bytes Model.FindDomain Model.MatchNet Model.LoadFile Model.LoadListArr Spec.ControlSpec.
 Extraction "m.ml" finddomain finddomain_orig matchdomain expr_matchb ip4_matchnet ip6_matchnet check_ip4 check_ip6
-  lloadfile loadlist loadint loadoneliner
-  cstr fd_spec in_net4b in_net6b ipbl_file_spec bytes_okb list_spec int_spec.
+  lloadfile loadlist loadint loadoneliner loadlist_arr read_ptrs
+  cstr fd_spec in_net4b in_net6b ipbl_file_spec bytes_okb list_spec int_spec plain_lines oneliner_spec pieces cat.
